@@ -45,6 +45,12 @@ type Env struct {
 
 // newExec prepares a path executor.
 func (e *Env) newExec(prefix []int, pending *[][]int) *Exec {
+	ex := e.newExec1(prefix, pending)
+	currentExec = ex
+	return ex
+}
+
+func (e *Env) newExec1(prefix []int, pending *[][]int) *Exec {
 	return &Exec{
 		Cfg: e.Cfg, dec: append([]int(nil), prefix...), pending: pending,
 		Bounded: map[string]int{}, lenChoice: map[string]int{}, globals: map[*ssa.Global]*Cell{}, UsedContracts: map[string]bool{}, Externals: map[string]bool{},
@@ -238,7 +244,7 @@ func (e *Env) VerifyFunc(fn *ssa.Function, ct *Contract, maxPaths int) *FuncResu
 	fkey := FuncKey(fn)
 	budget := e.Cfg.FuncBudget
 	if budget == 0 {
-		budget = 90 * time.Second
+		budget = 600 * time.Second // a safety net only: the deterministic limits are the path cap and the loop bound
 	}
 	e.Cfg.Deadline = time.Now().Add(budget)
 	defer func() { e.Cfg.Deadline = time.Time{} }()
@@ -264,6 +270,17 @@ func (e *Env) VerifyFunc(fn *ssa.Function, ct *Contract, maxPaths int) *FuncResu
 					defer func() { ev.inOld = false }()
 					return ev.bool(r.Expr)
 				})
+			}
+			// a precondition over a quantified variable holds for every value of it
+			if len(ct.Foralls) > 0 {
+				var fn2 []string
+				for n := range ct.Foralls {
+					fn2 = append(fn2, n)
+				}
+				sort.Strings(fn2)
+				ev.inOld = true
+				ex.assumeQuantified(ev, ct, fn2, append(append([]*Clause{}, ct.Assumes...), ct.Requires...), false)
+				ev.inOld = false
 			}
 		}
 		if ct != nil {
@@ -297,6 +314,9 @@ func (e *Env) VerifyFunc(fn *ssa.Function, ct *Contract, maxPaths int) *FuncResu
 		e.bindResults(fn, res, ev)
 		e.evalLets(ct, ev, false)
 		for _, c := range ct.Ensures {
+			if c.Assumed {
+				continue
+			}
 			ex.oblige(fkey+"/ensures:"+c.Name, ev.bool(c.Expr), "")
 			// vacuity guard: the antecedent of the clause must be reachable on some path
 			if len(c.Expr.Ante) > 0 {
@@ -388,6 +408,14 @@ func parseModifies(items []string) ([]modItem, error) {
 				return nil, err
 			}
 			out = append(out, modItem{Kind: "bankaddr", Expr: e})
+		case strings.HasPrefix(it, "elems:"):
+			// the elements of a slice reachable from a by-value argument (the callee shares the
+			// backing array with its caller) may be rewritten
+			e, err := parser.ParseExpr(strings.TrimPrefix(it, "elems:"))
+			if err != nil {
+				return nil, err
+			}
+			out = append(out, modItem{Kind: "elems", Expr: e})
 		case strings.HasPrefix(it, "*"):
 			e, err := parser.ParseExpr(strings.TrimPrefix(it, "*"))
 			if err != nil {
@@ -584,12 +612,42 @@ func (ex *Exec) applyContractSig(fr *frame, calleeKey string, pkg *types.Package
 	for _, r := range ct.Assumes {
 		ex.assume(ev.bool(r.Expr))
 	}
+	// a precondition that mentions a universally quantified variable must hold for every value:
+	// it is proved for a fresh constant (the candidate instances are for assuming postconditions)
+	savedInst := map[string]tval{}
+	for _, n := range fnames {
+		savedInst[n] = ev.vars[n]
+		ev.vars[n] = tval{smt.Var(ex.freshName("pre!any."+n), ct.Foralls[n]), nil}
+	}
 	for _, r := range ct.Requires {
 		g := ev.bool(r.Expr)
 		if ex.inSpec == 0 {
 			ex.oblige(label+"/pre:"+r.Name, g, "")
 		}
 		ex.assume(g)
+	}
+	for _, n := range fnames {
+		ev.vars[n] = savedInst[n]
+	}
+	// ... and is known, at the instances, once proved
+	if len(fnames) > 0 {
+		var instReq func(i int)
+		instReq = func(i int) {
+			if i == len(fnames) {
+				for _, r := range ct.Requires {
+					ex.assume(ev.bool(r.Expr))
+				}
+				return
+			}
+			for _, t := range cands[fnames[i]] {
+				ev.vars[fnames[i]] = tval{t, nil}
+				instReq(i + 1)
+			}
+		}
+		instReq(0)
+		for _, n := range fnames {
+			ev.vars[n] = savedInst[n]
+		}
 	}
 	for i := range names {
 		switch a := args[i].(type) {
@@ -618,6 +676,7 @@ func (ex *Exec) applyContractSig(fr *frame, calleeKey string, pkg *types.Package
 	var rows []rowT
 	var addrs []*smt.Term
 	var ptrs []*PtrV
+	var elemSlices []tval
 	for i, m := range mods {
 		if m.Cond != nil && !ex.branch(ev.bool(m.Cond)) {
 			mods[i].Kind = "skip"
@@ -635,6 +694,8 @@ func (ex *Exec) applyContractSig(fr *frame, calleeKey string, pkg *types.Package
 			addrs = append(addrs, ex.term(ev.eval(m.Expr).V))
 		case "ptr":
 			ptrs = append(ptrs, ev.heapTarget(m.Expr))
+		case "elems":
+			elemSlices = append(elemSlices, ev.eval(m.Expr))
 		}
 	}
 	for _, m := range mods {
@@ -670,6 +731,17 @@ func (ex *Exec) applyContractSig(fr *frame, calleeKey string, pkg *types.Package
 	for _, p := range ptrs {
 		if p.C != nil {
 			ex.havocObject(p, label, calleeKey)
+		}
+	}
+	for _, es := range elemSlices {
+		// the caller's view of the shared backing array: every element becomes unknown
+		sl, ok := ex.forceSliceVal(es.V)
+		if !ok || sl.Arr == nil {
+			continue
+		}
+		for i := 0; i < sl.Len; i++ {
+			c := sl.Arr.Elems[sl.Off+i]
+			c.V = &LazyV{T: c.T, Nm: Namer{Prefix: ex.freshName(label + "!elem")}}
 		}
 	}
 	// results
@@ -724,6 +796,12 @@ func (ex *Exec) applyContractSig(fr *frame, calleeKey string, pkg *types.Package
 		}
 	}
 	inst(0)
+	// ... and as universally quantified facts (the instances above help the solvers; the
+	// quantified form is what makes a fact available at values nobody listed). A clause whose
+	// evaluation under a bound variable would need a case split is left to its instances.
+	if len(fnames) > 0 {
+		ex.assumeQuantified(ev, ct, fnames, ct.Ensures, true)
+	}
 	// a supply-wrapper summarised by its contract still performs a mint/burn: record it with
 	// coins about which exactly the wrapper's own (proved) mints/burns clauses are known
 	if ct.SupplyWrapper {
@@ -826,6 +904,69 @@ func (e *Env) heapFrame(ex *Exec, fn *ssa.Function, ct *Contract, ev *evalEnv, a
 		}
 		return false
 	}
+	// by-value arguments share the backing arrays of their slices with the caller: the elements
+	// as the caller handed them in must be unchanged unless an `elems:` item names the slice
+	elemAllowed := map[string]bool{}
+	for _, m := range mods {
+		if m.Kind == "elems" {
+			var sb strings.Builder
+			writeExpr(&sb, m.Expr)
+			elemAllowed[sb.String()] = true
+		}
+	}
+	for i, p := range fn.Params {
+		if _, isPtr := args[i].(*PtrV); isPtr {
+			continue
+		}
+		if _, isCtx := args[i].(*CtxV); isCtx {
+			continue
+		}
+		old, ok := ev.oldVars[paramName(p, i)]
+		if !ok {
+			continue
+		}
+		var walk func(cur, was Val, path string, depth int)
+		walk = func(cur, was Val, path string, depth int) {
+			if depth > 3 || cur == nil || was == nil {
+				return
+			}
+			if lz, ok := cur.(*LazyV); ok && !ex.revealed(lz) {
+				return // never looked into: nothing was written through it
+			}
+			cur, was = ex.force(cur), ex.force(was)
+			switch x := cur.(type) {
+			case *StructV:
+				y, ok := was.(*StructV)
+				if !ok || len(x.F) != len(y.F) {
+					return
+				}
+				st, _ := x.T.Underlying().(*types.Struct)
+				for k := range x.F {
+					n := fmt.Sprint(k)
+					if st != nil {
+						n = st.Field(k).Name()
+					}
+					walk(x.F[k], y.F[k], path+"."+n, depth+1)
+				}
+			case *SliceV:
+				if elemAllowed[path] || x.Arr == nil {
+					return
+				}
+				y, ok := ex.forceSliceVal(was)
+				if !ok || y.Arr == nil {
+					return
+				}
+				n := x.Len
+				if y.Len < n {
+					n = y.Len
+				}
+				for k := 0; k < n; k++ {
+					ex.oblige(fkey+"/frame:heap:elems:"+path, ex.sameVal(x.Arr.Elems[x.Off+k].V, y.Arr.Elems[y.Off+k].V), "element of a slice shared with the caller changed outside modifies")
+				}
+			}
+		}
+		walk(args[i], old.V, paramName(p, i), 0)
+	}
 	for i, p := range fn.Params {
 		pv, ok := args[i].(*PtrV)
 		if !ok || pv.C == nil {
@@ -843,6 +984,14 @@ func (e *Env) heapFrame(ex *Exec, fn *ssa.Function, ct *Contract, ev *evalEnv, a
 		cmp = func(cur, was Val, path []int, name string) {
 			if covered(pv.C, path) {
 				return
+			}
+			if elemAllowed[strings.TrimPrefix(name, "*")] {
+				// in-place element writes of this slice are allowed; its header must stay
+				cs, ok1 := ex.force(cur).(*SliceV)
+				ws, ok2 := ex.forceSliceVal(was)
+				if ok1 && ok2 && cs.Len == ws.Len {
+					return
+				}
 			}
 			cur, was = ex.force(cur), ex.force(was)
 			cs, ok1 := cur.(*StructV)
@@ -1230,4 +1379,103 @@ func (ex *Exec) havocObject(p *PtrV, label, calleeKey string) {
 		}
 	}
 	ex.store(p, fresh)
+}
+
+// evalOldArg evaluates a modifies target on the current argument values (the slice header the
+// caller passed; by-value parameters are not reassigned by the frame check).
+func (ev *evalEnv) evalOldArg(e ast.Expr) Val {
+	return ev.eval(e).V
+}
+
+func isByteSliceT(t types.Type) bool {
+	sl, ok := t.Underlying().(*types.Slice)
+	if !ok {
+		return false
+	}
+	b, ok := sl.Elem().Underlying().(*types.Basic)
+	return ok && b.Kind() == types.Uint8
+}
+
+// assumeQuantified asserts forall <foralls>. clause for each clause that mentions a quantified
+// variable and evaluates without forking.
+func (ex *Exec) assumeQuantified(ev *evalEnv, ct *Contract, fnames []string, clauses []*Clause, filter bool) {
+	saved := map[string]tval{}
+	var bvs []*smt.Term
+	for _, n := range fnames {
+		saved[n] = ev.vars[n]
+		bv := smt.Var(ex.freshName("q!"+n), ct.Foralls[n])
+		bvs = append(bvs, bv)
+		ev.vars[n] = tval{bv, nil}
+		ev.oldVars[n] = tval{bv, nil}
+	}
+	defer func() {
+		for _, n := range fnames {
+			ev.vars[n] = saved[n]
+			ev.oldVars[n] = saved[n]
+		}
+	}()
+	for _, c := range clauses {
+		if filter && !ex.relevantClause(c) {
+			continue
+		}
+		c := c
+		// evaluated under the bound variables now and again whenever a collection the clause
+		// read opaquely is revealed (the quantified fact then speaks about its elements)
+		inOld := ev.inOld
+		vars := map[string]tval{}
+		olds := map[string]tval{}
+		for k, v := range ev.vars {
+			vars[k] = v
+		}
+		for k, v := range ev.oldVars {
+			olds[k] = v
+		}
+		ex.assumeSpec(func() *smt.Term {
+			ev2 := *ev
+			ev2.vars, ev2.oldVars, ev2.inOld = vars, olds, inOld
+			result := smt.True
+			func() {
+				ex.noFork = true
+				npc := len(ex.pc)
+				defer func() {
+					ex.noFork = false
+					if r := recover(); r != nil {
+						if _, ok := r.(quantSkip); ok {
+							ex.pc = ex.pc[:npc]
+							return
+						}
+						panic(r)
+					}
+				}()
+				t := ev2.bool(c.Expr)
+				mentionsBV := func(t *smt.Term) bool {
+					m := false
+					seen := map[*smt.Term]bool{}
+					smt.Walk(t, seen, func(x *smt.Term) {
+						for _, bv := range bvs {
+							if x == bv {
+								m = true
+							}
+						}
+					})
+					return m
+				}
+				side := append([]*smt.Term{}, ex.pc[npc:]...)
+				ex.pc = ex.pc[:npc]
+				var parts []*smt.Term
+				for _, sd := range side {
+					if mentionsBV(sd) {
+						parts = append(parts, smt.Forall(bvs, sd))
+					} else {
+						parts = append(parts, sd)
+					}
+				}
+				if mentionsBV(t) {
+					parts = append(parts, smt.Forall(bvs, t))
+				}
+				result = smt.And(parts...)
+			}()
+			return result
+		})
+	}
 }
